@@ -284,6 +284,12 @@ def case_point_along_composite(case):
         for off in (0, 2):
             vals = np.array([alphabet[(i + off) % len(alphabet)] for i in range(count)]).reshape(shape)
             args.append(("%s array of shape %r" % (dt, shape), vals.astype(dt), vals.astype(float), low_factor(dt), "array-" + pack_class(dt)))
+            if dt in ("int64", "float64") and off == 0:
+                # the same distances as a nested list / nested tuple of Python numbers
+                as_list = vals.astype(dt).tolist()
+                tup = lambda x: tuple(tup(y) for y in x) if isinstance(x, list) else x
+                args.append(("nested list (%s) of shape %r" % (dt, shape), as_list, vals.astype(float), low_factor(dt), "list-" + pack_class(dt)))
+                args.append(("nested tuple (%s) of shape %r" % (dt, shape), tup(as_list), vals.astype(float), low_factor(dt), "list-" + pack_class(dt)))
     for label, arg, tt, F, pcls in args:
         tv = fresh()
         x = tv.point_along(arg)
